@@ -1050,6 +1050,55 @@ impl<Body> Response<Body> {
 //@end
 }
 
+// ------------------------------------------------------------------ C15: the body expectations keep status, headers and version
+impl Response<Vec<u8>> {
+    /// what reading this response's body as a string / as JSON gives (decode_body: unit D; serde_json: uninterpreted)
+    pub uninterp spec fn body_string_s(&self) -> Result<String>;
+    pub uninterp spec fn body_json_s<T>(&self) -> Result<T>;
+    // ASSUMED here (body_string -> content_type + decode_body, proved in unit D; body_json -> serde_json): they
+    // consume the body and leave status, headers and version alone
+    #[verifier::external_body]
+    pub fn body_string(&mut self) -> (r: Result<String>)
+        ensures r == old(self).body_string_s(), final(self).status == old(self).status, final(self).headers == old(self).headers, final(self).version == old(self).version,
+    { unimplemented!() }
+    #[verifier::external_body]
+    pub fn body_json<T>(&mut self) -> (r: Result<T>)
+        ensures r == old(self).body_json_s::<T>(), final(self).status == old(self).status, final(self).headers == old(self).headers, final(self).version == old(self).version,
+    { unimplemented!() }
+}
+impl<Body> Response<Body> {
+//@extract id=Response::with_body file=crux_http/src/response/response.rs within="impl<Body> Response<Body>" item="fn with_body" props=C15
+//@expect pub fn with_body<NewBody>(self, body: NewBody) -> Response<NewBody>
+//@sig pub fn with_body<NewBody>(self, body: NewBody) -> (r: Response<NewBody>)
+//@contract
+        ensures r.status == self.status && r.headers == self.headers && r.version == self.version && r.body == Some(body), // [C15/Response::with_body/the-decoded-body-replaces-the-bytes-and-status-headers-version-stay]
+//@end
+}
+//@extract id=ExpectBytes file=crux_http/src/expect.rs item="struct ExpectBytes"
+//@end
+//@extract id=ExpectString file=crux_http/src/expect.rs item="struct ExpectString"
+//@end
+impl ExpectBytes {
+//@extract id=ExpectBytes::decode file=crux_http/src/expect.rs within="impl ResponseExpectation for ExpectBytes" item="fn decode" props=C15
+//@expect fn decode(&self, resp: crate::Response<Vec<u8>>) -> Result<Response<Vec<u8>>>
+//@sig fn decode(&self, resp: Response<Vec<u8>>) -> (r: Result<Response<Vec<u8>>>)
+//@contract
+        ensures r == Ok::<Response<Vec<u8>>, HttpError>(resp), // [C15/ExpectBytes::decode/the-bytes-expectation-hands-the-response-on-unchanged]
+//@end
+}
+impl ExpectString {
+//@extract id=ExpectString::decode file=crux_http/src/expect.rs within="impl ResponseExpectation for ExpectString" item="fn decode" props=C15
+//@expect fn decode(&self, mut resp: crate::Response<Vec<u8>>) -> Result<Response<String>>
+//@sig fn decode(&self, resp: Response<Vec<u8>>) -> (r: Result<Response<String>>)
+//@contract
+        ensures
+            r matches Ok(x) ==> resp.body_string_s() matches Ok(s) && x.body == Some(s) && x.status == resp.status && x.headers == resp.headers && x.version == resp.version, // [C15/ExpectString::decode/a-success-carries-the-decoded-string-and-the-same-status-headers-version]
+            r matches Err(e) ==> resp.body_string_s() == Err::<String, HttpError>(e), // [C15/ExpectString::decode/a-body-that-does-not-decode-is-that-error-value]
+//@entry
+        let mut resp = resp;
+//@end
+}
+
 } // verus!
 
 fn main() {}
